@@ -407,19 +407,28 @@ Section WalkFacts.
     induction l as [|c r IH]; intros H; [reflexivity|]. cbn [concat_res flat_map]. rewrite (H c (or_introl eq_refl)). cbn [rbind].
     rewrite IH by (intros x Hx; apply H; right; exact Hx). reflexivity.
   Qed.
-  Lemma btt_spec F root : forall fuel n, In n (ids t) -> length (a_descendants t n) < fuel ->
-    btt first_raw next_raw is_tag fc fuel ftrue F root n = Ok (filter (fun x => N.eqb x root || F x) (a_df_btt t n)).
+  (* under an ambient filter D the walk goes through the D-visible children only; the passed filters are tested when a
+     node is yielded, the given root is yielded in any case *)
+  Lemma btt_spec D F root : forall fuel n, In n (ids t) -> length (a_descendants t n) < fuel ->
+    btt first_raw next_raw is_tag fc fuel D F root n = Ok (filter (fun x => N.eqb x root || F x) (a_post_vis t D n)).
   Proof.
-    induction fuel as [|f IH]; intros n Hn Hf; [lia|]. cbn [btt]. rewrite (children_spec ftrue ftrue n Hn). cbn [rbind].
-    rewrite (filter_all _ _ (fun x => eq_refl)).
-    rewrite (concat_res_pre _ (fun c => filter (fun x => N.eqb x root || F x) (a_df_btt t c))).
-    - cbn [rbind]. rewrite (post_unfold t Hnd n Hn), filter_app, filter_flat_map. cbn [filter].
+    induction fuel as [|f IH]; intros n Hn Hf; [lia|]. cbn [btt]. rewrite (children_spec D ftrue n Hn). cbn [rbind].
+    rewrite filter_fand_ftrue.
+    rewrite (concat_res_pre _ (fun c => filter (fun x => N.eqb x root || F x) (a_post_vis t D c))).
+    - cbn [rbind]. rewrite (post_vis_unfold t Hnd D n Hn), filter_app, filter_flat_map. cbn [filter].
       destruct (N.eqb n root || F n); [reflexivity|rewrite app_nil_r; reflexivity].
-    - intros c Hc. apply IH; [exact (children_in t n c Hc)|]. pose proof (child_descendants_shorter t Hnd n c Hn Hc). lia.
+    - intros c Hc. apply filter_In in Hc. destruct Hc as [Hc _]. apply IH; [exact (children_in t n c Hc)|].
+      pose proof (child_descendants_shorter t Hnd n c Hn Hc). lia.
   Qed.
+  Theorem traverse_df_btt_ambient_spec fuel D F n : In n (ids t) -> length (ids t) <= fuel ->
+    w_traverse_df_btt first_raw next_raw is_tag fc fuel D F n = Ok (filter (fun x => N.eqb x n || F x) (a_post_vis t D n)).
+  Proof. intros Hn Hf. apply btt_spec; [exact Hn|]. pose proof (descendants_length n Hn). lia. Qed.
   Theorem traverse_df_btt_spec fuel F n : In n (ids t) -> length (ids t) <= fuel ->
     w_traverse_df_btt first_raw next_raw is_tag fc fuel ftrue F n = Ok (filter (fun x => N.eqb x n || F x) (a_df_btt t n)).
-  Proof. intros Hn Hf. apply btt_spec; [exact Hn|]. pose proof (descendants_length n Hn). lia. Qed.
+  Proof.
+    intros Hn Hf. rewrite (traverse_df_btt_ambient_spec fuel ftrue F n Hn Hf). unfold a_post_vis, a_df_btt.
+    destruct (a_sub t n); [rewrite post_vis_ftrue|]; reflexivity.
+  Qed.
 
   Lemma rbind_ret {A} (x : res A) : (r <- x ;; Ok r) = x.
   Proof. destruct x; reflexivity. Qed.
